@@ -11,6 +11,7 @@ import (
 	"os"
 	"os/exec"
 	"path/filepath"
+	"runtime/pprof"
 	"sort"
 	"strconv"
 	"strings"
@@ -90,6 +91,11 @@ func TestMain(m *testing.M) {
 }
 
 func runCheck(id string) int {
+	defer func() {
+		if scratchDir != "" {
+			os.RemoveAll(scratchDir)
+		}
+	}()
 	d := checks[id]
 	if d == nil {
 		fmt.Fprintf(os.Stderr, "unknown check %q\n", id)
@@ -205,6 +211,13 @@ func counterLine(p *evidence.Part) string {
 }
 
 func runBody(d *checkDef, c *Ctx) {
+	if pf := os.Getenv("VERIF_PROFILE"); pf != "" {
+		f, err := os.Create(pf)
+		if err == nil {
+			pprof.StartCPUProfile(f)
+			defer pprof.StopCPUProfile()
+		}
+	}
 	defer func() {
 		if r := recover(); r != nil {
 			buf := make([]byte, 8192)
@@ -325,8 +338,17 @@ var scratchDir string
 // scratch returns a per-process scratch directory next to the test binary (never /tmp).
 func scratch() string {
 	if scratchDir == "" {
-		base, _ := filepath.Abs(filepath.Dir(os.Args[0]))
-		d, err := os.MkdirTemp(base, "scratch-")
+		// runtime scratch: memory-backed if available (file operations on the disk cost ~1 ms),
+		// removed when the check ends
+		base := "/dev/shm"
+		if st, err := os.Stat(base); err != nil || !st.IsDir() {
+			base, _ = filepath.Abs(filepath.Dir(os.Args[0]))
+		}
+		d, err := os.MkdirTemp(base, "verif-scratch-")
+		if err != nil {
+			base, _ = filepath.Abs(filepath.Dir(os.Args[0]))
+			d, err = os.MkdirTemp(base, "scratch-")
+		}
 		if err != nil {
 			panic(err)
 		}
